@@ -1130,7 +1130,20 @@ func (e *Engine) initGlobals(order []*ssa.Package) error {
 				st.mem.cells[pathKey(r.id, nil)] = &SliceVal{elem: types.Typ[types.Uint8], off: mkInt64(0), length: mkInt64(0), capacity: mkInt64(0)}
 				continue
 			}
-			e.initRegionZero(st, r)
+			func() {
+				defer func() {
+					if rr := recover(); rr != nil {
+						ee, ok := rr.(engineError)
+						if !ok {
+							panic(rr)
+						}
+						// a package-level variable of a kind the engine does not model (map, channel, ...):
+						// every read of it is an engine error at the place of use
+						e.poison(r, fmt.Sprintf("package-level variable %s.%s is not modelled (%s)", p.Pkg.Path(), n, ee.msg))
+					}
+				}()
+				e.initRegionZero(st, r)
+			}()
 		}
 		initFn := p.Func("init")
 		if initFn == nil || initFn.Blocks == nil {
@@ -1155,7 +1168,14 @@ func (e *Engine) initGlobals(order []*ssa.Package) error {
 			st = exits[0].st
 		}()
 		if ierr != nil {
-			return ierr
+			// the package-level state of this package is unknown from here on: reads of its variables are
+			// engine errors in the functions that perform them (other packages stay analysable)
+			for _, n := range names {
+				if g, ok := p.Members[n].(*ssa.Global); ok {
+					e.poison(e.globalRegion(g), ierr.Error())
+				}
+			}
+			e.initErrors = append(e.initErrors, ierr.Error())
 		}
 	}
 	e.gmem = st.mem
